@@ -30,6 +30,10 @@ func Assemble(na datamodel.NodeAssembler, v Val, r *Rand) error {
 	case 'f':
 		return na.AssignBool(false)
 	case 'i':
+		if UintNodesForNonNegative && !v.Neg {
+			// every non-negative integer arrives as a datamodel.UintNode handed over with AssignNode (in range or not)
+			return na.AssignNode(basicnode.NewUint(v.Mag))
+		}
 		if i, ok := v.Int64(); ok {
 			return na.AssignInt(i)
 		}
@@ -127,6 +131,10 @@ func Assemble(na datamodel.NodeAssembler, v Val, r *Rand) error {
 }
 
 // BuildBasic builds v with basicnode's Any prototype.
+// UintNodesForNonNegative: Assemble supplies every non-negative integer as a UintNode through AssignNode (set by a route
+// around one Assemble call).
+var UintNodesForNonNegative bool
+
 func BuildBasic(v Val, r *Rand) (datamodel.Node, error) {
 	nb := basicnode.Prototype.Any.NewBuilder()
 	if err := Assemble(nb, v, r); err != nil {
